@@ -173,3 +173,47 @@ Definition c04_document_accepts (E : env) (site_field : bool) (dname : option na
   | Ast.Done [] => true
   | _ => false
   end.
+
+(** ** DateTime and LongInt through C04's refined scalars ([Ast.SRefined], round 6).
+    The translations above keep their kind-level images (other properties build on them); the
+    refined ones below are what the check now runs for every case, [bridgeable] or not. *)
+Definition tr_scalar_r (dt : bytes -> option bytes) (k : scalar_kind) : Ast.scalar :=
+  match k with
+  | KDateTime => Ast.SRefined (Some [Ast.KString]) (Ast.PStringIn (fun s => match dt s with Some _ => true | None => false end))
+  | KLongInt => Ast.SRefined (Some [Ast.KInt]) (Ast.PIntRange (- (2 ^ 53 - 1)) (2 ^ 53 - 1))
+  | _ => tr_scalar k
+  end.
+
+Definition tr_tdef_r (dt : bytes -> option bytes) (td : tdef) : Ast.type_body :=
+  match td with
+  | TScalar k => Ast.TScalar (tr_scalar_r dt k)
+  | _ => tr_tdef td
+  end.
+
+Definition tr_env_r (dt : bytes -> option bytes) (E : env) : Ast.schema :=
+  {| Ast.s_types := map (fun p : name * tdef => (fst p, {| Ast.t_req := []; Ast.t_body := tr_tdef_r dt (snd p) |})) E;
+     Ast.s_query := []; Ast.s_mutation := None; Ast.s_subscription := None;
+     Ast.s_directives := []; Ast.s_meta := []; Ast.s_impls := [] |}.
+
+Definition c04_accepts_r (dt : bytes -> option bytes) (E : env) (l : lit) (t : sty) (allow : bool) : bool :=
+  match ValidatorModel.coercion ValidatorModel.repaired ValidatorModel.id_order (tr_env_r dt E) (tr_lit l) (tr_sty t) allow with
+  | ValidatorModel.VR [] => true
+  | _ => false
+  end.
+
+Definition bridge_agrees_r (E : env) (dt : bytes -> option bytes) (l : lit) (t : sty) : bool :=
+  Bool.eqb (c04_accepts_r dt E l t true) (validate_coercion E dt l t true).
+
+Definition tr_request_schema_r (dt : bytes -> option bytes) (E : env) (site_field : bool) (argdefs : list (name * in_def)) : Ast.schema :=
+  let S0 := tr_request_schema E site_field argdefs in
+  {| Ast.s_types := Ast.s_types (tr_env_r dt E) ++ skipn (length E) (Ast.s_types S0);
+     Ast.s_query := Ast.s_query S0; Ast.s_mutation := None; Ast.s_subscription := None;
+     Ast.s_directives := Ast.s_directives S0; Ast.s_meta := []; Ast.s_impls := [] |}.
+
+Definition c04_document_accepts_r (dt : bytes -> option bytes) (E : env) (site_field : bool) (dname : option name)
+           (argdefs : list (name * in_def)) (defs : list vardef) (args : list (name * lit)) : bool :=
+  match ValidatorModel.validate_model_memo ValidatorModel.repaired ValidatorModel.id_order
+          (tr_request_schema_r dt E site_field argdefs) [] (tr_request_doc dname defs args) with
+  | Ast.Done [] => true
+  | _ => false
+  end.
